@@ -37,6 +37,11 @@ def plan(tier, seed):
     jobs = jobs + under_display_configs(shard('history', 20, 2) + shard('recipe', 12, 1) if tier == 'quick' else shard('history', 300, 8) + shard('recipe', 200, 4))
     if tier != 'quick' or False:
         jobs = jobs + repo_suite_job()
+    # (round 17) the directed family about plates of the same name that are not the declared plate (pv/edges.py E26): a step
+    # declared on such a plate's rows would be replayed on other wells of the declared one
+    for j in shard('edges', 4 if tier == 'quick' else 60, 1):
+        j['params'] = {'only': [25]}
+        jobs.append(j)
     return jobs
 
 
@@ -48,6 +53,9 @@ def _plan(tier, seed):
 
 
 def run_job(job):
+    if job['kind'] == 'edges':
+        from pv.edges import edges
+        return run_cases(job, edges)
     if job['kind'] == 'repo_suite':
         return run_cases(job, repo_suite)
     fn = {'history': history, 'shapes': shapes, 'witness': witness, 'recipe': recipe}[job['kind']]
